@@ -817,19 +817,19 @@ def run(ctx):
     _jax()
     rng = ctx.rng
     cases = _corpus()
-    for _ in range(ctx.n(120, 1500)):
+    for _ in range(ctx.n(100, 1500)):
         cases.append(gen_binop(rng))
-    for _ in range(ctx.n(40, 250)):
+    for _ in range(ctx.n(30, 250)):
         cases.append(dict(op="unary", f=rng.choice(list(UNOPS)), x=gen_tree(rng, rng.choice([1, 2, 3]))))
-    for _ in range(ctx.n(40, 250)):
+    for _ in range(ctx.n(30, 250)):
         cases.append(dict(op="reduce", x=gen_tree(rng, rng.choice([0, 1, 2, 3])), how=rng.randrange(2)))
-    for _ in range(ctx.n(40, 250)):
+    for _ in range(ctx.n(30, 250)):
         a = gen_tree(rng, rng.choice([1, 2, 3]))
         b = same_struct(rng, a) if rng.random() < 0.85 else mutate_struct(rng, same_struct(rng, a))
         cases.append(dict(op="vdot", a=a, b=b, how=rng.randrange(3)))
-    for _ in range(ctx.n(40, 250)):
+    for _ in range(ctx.n(30, 250)):
         cases.append(gen_where(rng))
-    for _ in range(ctx.n(30, 300)):
+    for _ in range(ctx.n(24, 300)):
         cases.append(gen_smap(rng))
     for _ in range(ctx.n(25, 200)):
         a = gen_tree(rng, rng.choice([1, 2, 3]), -5, 5)
